@@ -40,6 +40,15 @@ func (r *vfC13Replica) Pos() uint64 {
 	return r.Since.Seq
 }
 
+// LowPos is the sequence above which the revocation feed consults grant history instead of revoking
+// directly: the plain part of the token.
+func (r *vfC13Replica) LowPos() uint64 {
+	if p := r.Pos(); p < r.Since.Seq {
+		return p
+	}
+	return r.Since.Seq
+}
+
 type vfC13PullStats struct {
 	Pages, Rows, Revoked, Removed, Deleted, Backfill, Fetched, NoRev, Stubs int
 	InterruptedBackfill                                                     bool // a page ended on a back-fill token
@@ -58,6 +67,7 @@ type vfC13World struct {
 	lastVisible map[string]string // model-visible set at the previous completed pull
 	lastEff     map[string]uint64 // model access at the previous completed pull
 	lostSince   map[string]bool   // channels the user had at the previous pull and was without at some point since
+	AccessOps   []uint64          // sequences of the operations since the previous completed pull that changed the client user's grant sources
 	Pulls       []vfC13PullStats
 
 	// AvoidBoundary, when set, is asked after every full page whether a page boundary directly after
@@ -119,6 +129,12 @@ func (w *vfC13World) Do(o vfC13Op) error {
 	w.Ops = append(w.Ops, o.String())
 	t0 := time.Now()
 	defer func() { w.tDo += time.Since(t0) }()
+	fpBefore := w.M.Fingerprint(vfC13Client)
+	defer func() {
+		if w.M.Fingerprint(vfC13Client) != fpBefore {
+			w.AccessOps = append(w.AccessOps, w.M.Seq)
+		}
+	}()
 	switch o.Kind {
 	case "put":
 		body := Body{"chans": o.Chans}
@@ -351,6 +367,7 @@ func (w *vfC13World) Pull(limits []int) (fail *vfC13Fail, err error) {
 	w.lastVisible = want
 	w.lastEff = eff
 	w.lostSince = map[string]bool{}
+	w.AccessOps = nil
 	return nil, nil
 }
 
@@ -455,5 +472,24 @@ func (w *vfC13World) gatewayView() string {
 		}
 	}
 	chs, _ := user.InheritedCollectionChannels(w.Env.Coll.ScopeName, w.Env.Coll.Name)
-	return fmt.Sprintf("user can fetch %s, channels %s, roles %s", vfC13RenderHeld(can), chs.String(), user.RoleNames().String())
+	hist := func(h auth.TimedSetHistory) string {
+		var parts []string
+		for _, k := range vfSortedKeys(h) {
+			var es []string
+			for _, e := range h[k].Entries {
+				es = append(es, fmt.Sprintf("%d-%d", e.StartSeq, e.EndSeq))
+			}
+			parts = append(parts, k+":"+strings.Join(es, ","))
+		}
+		return vfJoin(parts)
+	}
+	out := fmt.Sprintf("user can fetch %s, channels %s, roles %s, recorded channel history %s, role history %s", vfC13RenderHeld(can), chs.String(), user.RoleNames().String(),
+		hist(user.CollectionChannelHistory(w.Env.Coll.ScopeName, w.Env.Coll.Name)), hist(user.RoleHistory()))
+	for _, rn := range vfC13RoleIDs {
+		if role, _ := w.Env.DBC.Authenticator(w.Env.Ctx).GetRoleIncDeleted(rn); role != nil {
+			out += fmt.Sprintf(", role %s (deleted=%v) channels %s history %s", rn, role.IsDeleted(), role.CollectionChannels(w.Env.Coll.ScopeName, w.Env.Coll.Name).String(),
+				hist(role.CollectionChannelHistory(w.Env.Coll.ScopeName, w.Env.Coll.Name)))
+		}
+	}
+	return out
 }
